@@ -871,6 +871,12 @@ def corpus():
         # 18 groups (more tracks than MIDI channels), a negative instrument number
         _desc(notes=[n(40 + j, sec, 2 * sec, ins=j, prog=j) for j in range(18)]),
         _desc(notes=[n(60, sec, 2 * sec, ins=-1, prog=4), n(61, sec, 2 * sec, ins=0, prog=5)]),
+        # long pieces at fine resolution: the last event lies beyond tick 10,000,000 (pretty_midi's built-in MAX_TICK,
+        # which midi_io raises to 1e10 at import); sparse, so they cost one big tick table each
+        _desc(tpq=960, tempos=[(0, 200000)], notes=[n(60, 200000 * 1000 + 77, 200000 * 5000), n(72, 200000 * 10500000 + 3, 200000 * 10500960, ins=1, prog=33)],
+              ccs=[(200000 * 10400000, 64, 127, 1, 33, 0)], ksigs=[(200000 * 9999999, 4, 1)]),
+        _desc(tpq=480, tempos=[(0, 250000), (250000 * 6000000 + 5, 400000)], notes=[n(36, 250000 * 10000001, 250000 * 10000001 + 400000 * 3, dr=1)],
+              route='file'),
         # same tempo twice in a row (the loader merges them)
         _desc(tempos=[(0, 600000), (sec, 600000), (2 * sec, 500000)], notes=[n(64, sec, 3 * sec, ins=1, dr=1)]),
     ]
